@@ -6,6 +6,8 @@ package bh
 
 import (
 	"fmt"
+	"os"
+	"strconv"
 	"strings"
 	"sync"
 
@@ -76,6 +78,9 @@ func (l *Log) Len() int {
 // Dump renders the last n events (all if n <= 0).
 func (l *Log) Dump(n int) []string {
 	ev := l.Events()
+	if v, err := strconv.Atoi(os.Getenv("VERIF_LOG_TAIL")); err == nil && v > 0 {
+		n = v // debugging aid: longer witness logs
+	}
 	if n > 0 && len(ev) > n {
 		ev = ev[len(ev)-n:]
 	}
